@@ -125,4 +125,39 @@ func factsC02() {
 		}
 	}
 	add("C02", "subscribeBufCap", "Nat", sc, "pkg/tracing/tracer.go (*tracer).Subscribe: capacity of the subscriber channel")
+
+	// boundaryEndTraceDetached: in activity.go (*harness).run the goroutine that forwards the activity's answer to the
+	// token (`out <- rsp`) sends ActiveBoundaryTrace{Start: false} AFTER the forward (true: the token may run ahead of
+	// that trace, up to and beyond the cease-flow trace) or BEFORE it (false).
+	det := ""
+	if fd := funcDecl(load("activity.go"), "harness", "run"); fd != nil && fd.Body != nil {
+		var fwd, tr token.Pos
+		ast.Inspect(fd.Body, func(n ast.Node) bool {
+			switch x := n.(type) {
+			case *ast.SendStmt:
+				if exprString(x.Chan) == "out" && fwd == token.NoPos {
+					fwd = x.Pos()
+				}
+			case *ast.CallExpr:
+				if !strings.HasSuffix(exprString(x.Fun), ".Send") || len(x.Args) != 1 {
+					return true
+				}
+				cl, ok := x.Args[0].(*ast.CompositeLit)
+				if !ok || !strings.HasSuffix(exprString(cl.Type), "ActiveBoundaryTrace") {
+					return true
+				}
+				for _, el := range cl.Elts {
+					if kv, isKV := el.(*ast.KeyValueExpr); isKV && exprString(kv.Key) == "Start" && exprString(kv.Value) == "false" {
+						tr = x.Pos()
+					}
+				}
+			}
+			return true
+		})
+		if fwd != token.NoPos && tr != token.NoPos {
+			det = boolLit(tr > fwd)
+		}
+	}
+	add("C02", "boundaryEndTraceDetached", "Bool", det,
+		"activity.go (*harness).run: ActiveBoundaryTrace{Start:false} is sent after the answer was forwarded to the token (`out <- rsp`)")
 }
